@@ -306,6 +306,13 @@ func (w WALBatch) replay(fs *fileStore) error {
 		if row.LSN > fs._nextLSN {
 			fs._nextLSN = row.LSN
 		}
+		// the last key handed out is at least the key of every logged insert
+		// (keys consumed by refused statements leave gaps in the log). this
+		// holds for records that are skipped below too: a flush that wrote the
+		// page but not the header leaves the key on disk and the counter behind
+		if row.WALOp == OpInsert && row.cellID > fs.lastKey {
+			fs.lastKey = row.cellID
+		}
 		node, err := fs.fetch(row.pageID)
 		if err != nil {
 			return err
@@ -321,11 +328,6 @@ func (w WALBatch) replay(fs *fileStore) error {
 			err = bt.insertKey(row.cellID, row.LSN, row.val)
 			if err != nil && !errors.Is(err, errKeyAlreadyExists) {
 				return err
-			}
-			// the last key handed out is at least the key of this record (keys
-			// consumed by refused statements leave gaps in the log)
-			if row.cellID > fs.lastKey {
-				fs.lastKey = row.cellID
 			}
 			if bt.rootOffset != node.getFileOffset() {
 				// the insert moved the root of its table. the record that
